@@ -84,7 +84,7 @@ def check(an, rep, tier):
         args.update(extra)
         I.run_function(prog.func(q), args)
         for s in I.sites:
-            if s.rule in S_RULES + ['G-div'] and (
+            if s.rule in S_RULES + ['G-div', 'U-abs'] and (
                     s.where in wh or s.where.startswith('maxvol.')):
                 st = s.status
                 det = s.detail
